@@ -88,6 +88,8 @@ func init() {
 	ops["date.rt"] = func(e Ev) Ev {
 		d := date.New(num(e["y"]), date.Month(num(e["m"])), num(e["d"]))
 		e["new"] = ymd(d)
+		e["acc"] = []int{d.Year(), int(d.Month()), d.Day()}
+		e["mname"] = d.Month().String()
 		fe, err1 := date.DefaultFormatter(nil, d, 0)
 		fb, err2 := date.DefaultFormatter(nil, d, date.FormatBasic)
 		mt, err3 := d.MarshalText()
